@@ -484,8 +484,8 @@ def _obligations_for(prop, tier):
             obs += p_rules(rules=(0, 4, 5))
             obs += p_double_edges(2)
         else:
-            obs += p_double_edges(3)
             obs = wf_cubes(3, ["private", "shared2"], 3, name="kinds", H=12, timeout=900)
+            obs += p_double_edges(3)
             obs += wf_cubes(2, ["shared1", "shared2", "private"], 4, name="kinds", H=12, timeout=600)
             obs += p_progress_auto(wmax=4, H=12, timeout=600)
             obs += p_absence(wmax=3, H=12, timeout=900)
